@@ -169,17 +169,17 @@ Print Assumptions C06_netlist_flat_names_refuted.
 (* non-vacuity of the walk: a shared sub-module below two parents, an array declared before a single instance
    (its elements are exported after it), two external objects of one interface and a same-named one in another domain *)
 Definition resA : pext := {| px_domain := "libA"; px_name := "res"; px_ports := [("p", 1, 3); ("n", 1, 3)]; px_spicetype := "RESISTOR" |}.
+Definition walk_view (r : result xstate) : option (list name * list pext * option (name * list oref)) :=
+  match r with Ok st => Some (map fst (xs_out st), xs_exts st, nth_error (xs_out st) 3) | Error _ => None end.
 Example C06_ex_walk :
-  match export [ {| hm_name := "d.Leaf"; hm_insts := [(HExt 0, 0); (HExt 1, 0); (HExt 2, 0)] |};
-                 {| hm_name := "d.Mid"; hm_insts := [(HMod 0, 2); (HPrim "vlsir.primitives" "resistor", 0)] |};
-                 {| hm_name := "d.Other"; hm_insts := [(HMod 0, 0)] |};
-                 {| hm_name := "d.Top"; hm_insts := [(HMod 2, 2); (HMod 1, 0); (HMod 0, 0)] |} ]
-               [res2; res2; resA] [3%nat] with
-  | Ok st => map fst (xs_out st) = ["d.Leaf"; "d.Mid"; "d.Other"; "d.Top"] /\ xs_exts st = [res2; resA] /\
-             nth_error (xs_out st) 3 = Some ("d.Top", [OLocal "d.Mid"; OLocal "d.Leaf"; OLocal "d.Other"; OLocal "d.Other"])
-  | Error _ => False
-  end.
-Proof. cbn. repeat split; reflexivity. Qed.
+  walk_view (export [ {| hm_name := "d.Leaf"; hm_insts := [(HExt 0, 0); (HExt 1, 0); (HExt 2, 0)] |};
+                      {| hm_name := "d.Mid"; hm_insts := [(HMod 0, 2); (HPrim "vlsir.primitives" "resistor", 0)] |};
+                      {| hm_name := "d.Other"; hm_insts := [(HMod 0, 0)] |};
+                      {| hm_name := "d.Top"; hm_insts := [(HMod 2, 2); (HMod 1, 0); (HMod 0, 0)] |} ]
+                    [res2; res2; resA] [3%nat])
+  = Some (["d.Leaf"; "d.Mid"; "d.Other"; "d.Top"], [res2; resA],
+          Some ("d.Top", [OLocal "d.Mid"; OLocal "d.Leaf"; OLocal "d.Other"; OLocal "d.Other"])).
+Proof. vm_compute. reflexivity. Qed.
 (* ... a clash of qualified names below the top is refused, also when the child takes the parent's name *)
 Example C06_ex_walk_clash :
   export [ {| hm_name := "d.A"; hm_insts := [] |}; {| hm_name := "d.A"; hm_insts := [(HMod 0, 0)] |} ] [] [1%nat] = Error EName.
